@@ -710,7 +710,9 @@ pub fn run(args: &Args) {
         ("pop_duplicates_count_gt1", total.dup_counts_gt1),
     ] {
         rep.count(k, v);
-        rep.require_nonzero(k);
+        if rep.violations().is_empty() {
+            rep.require_nonzero(k);
+        }
         rep.outcome(k, v);
     }
     rep.assume("the derived Debug output of TraversalQueue prints every field (entries in order, partition), so equal strings mean identical objects");
